@@ -35,7 +35,10 @@ pub struct Item {
     pub has_exit_code: bool,
 }
 
-pub const ITEMS: [Item; 9] = [
+pub const ITEMS: [Item; 11] = [
+    // a shell killed by signal N is not a shell that exited with 128+N: even when the document expects that code
+    Item { name: "kill-9-expecting-137", md: "kill -9 $$", cram: "kill -9 $$", expectations: &[], code: Some(137), kind: "", has_exit_code: false },
+    Item { name: "kill-term-expecting-143", md: "kill -TERM $$", cram: "kill -TERM $$", expectations: &[], code: Some(143), kind: "", has_exit_code: false },
     Item { name: "true", md: "true", cram: "true", expectations: &[], code: None, kind: "success", has_exit_code: true },
     Item { name: "exit1", md: "exit 1", cram: "(exit 1)", expectations: &[], code: None, kind: "invalid_exit_code", has_exit_code: true },
     Item { name: "exit2-expected", md: "exit 2", cram: "(exit 2)", expectations: &[], code: Some(2), kind: "success", has_exit_code: true },
